@@ -68,7 +68,7 @@ def planOf (fs : List Json) : Plan := fun k =>
   | none => .ok
 
 def headOf (s : String) : Head :=
-  if s = "err" || s = "" then .err else if s = "nil" then .nil else .digest s
+  if s = "" || s.startsWith "err" then .err (errClassOfKind s) else if s = "nil" then .nil else .digest s
 
 def isAscii (s : String) : Bool := s.toList.all (fun c => c.toNat < 128)
 
@@ -104,6 +104,12 @@ def checkRun (pname : String) (env : Env) (plan : Plan) (s : Store) : Option Str
           app.any (fun q => match q with | .deleteRev n => v != some n || n == cur | _ => false)
         | .error _ => app.any (fun q => match q with | .deleteRev _ => true | _ => false)
     if gcBad then some "C14:gc" else
+    let fetchFailed := match s.pkg with
+      | some p => (match revisionName env p with | .error _ => true | .ok _ => false)
+      | none => false
+    if fetchFailed && (app.any isRevWrite || states.any (fun x => x.revs != s.revs ||
+        x.pkg.map (fun q => (q.status.curRev, q.status.curId)) != s.pkg.map (fun q => (q.status.curRev, q.status.curId)))) then
+      some "C14:write-after-fetch-error" else
     match r with
     | some (.done cur _) =>
       match findRev cur s'.revs with
